@@ -108,9 +108,11 @@ class Capture(logging.Handler):
         super().__init__(level=1)
         self.pool = pool
         self.records = []
+        self.kept = []
 
     def emit(self, record):
         self.records.append((record, self.pool.writes, dict(self.pool.peek())))
+        self.kept.append(dict(record.args) if isinstance(record.args, dict) else record.args)  # what the record said when it was emitted
 
 
 def execute(case, result):
@@ -269,6 +271,16 @@ def execute(case, result):
                 got = top.demand
                 if got != state["demand"] or type(got) is not type(state["demand"]):
                     bad("demand through a transparent stack is %r, the pool has %r" % (got, state["demand"]))
+        # a record is a statement about one write: later writes do not rewrite it (handlers may format records later)
+        for n, ((record, _, _), kept) in enumerate(zip(capture.records, capture.kept)):
+            now = record.args
+            if isinstance(kept, dict) and (not isinstance(now, dict) or set(now) != set(kept) or any(now[k] is not kept[k] and now[k] != kept[k] for k in kept)):
+                problems.append(("stack %s: record %d of %d said %r when it was emitted and says %r after the later operations"
+                                 % (kinds, n, len(capture.records), {k: v for k, v in kept.items() if k != "target"},
+                                    {k: v for k, v in now.items() if k != "target"} if isinstance(now, dict) else now), None))
+                break
+        if len(capture.records) >= 2:
+            result.count("stacks_whose_earlier_records_were_read_again_after_later_writes")
     finally:
         for lg in hooked:
             lg.removeHandler(capture)
@@ -369,6 +381,6 @@ def run_shard(spec):
 
 def finish(total, tier):
     for name in ("writes_checked", "records_checked", "transparent_writes_checked", "reads_checked", "loggers_renamed", "loggers_releveled",
-                 "states_utilisation_above_allocation", "states_with_fractions_that_are_not_floats", "templates_unknown_field", "templates_known_fields"):
+                 "states_utilisation_above_allocation", "states_with_fractions_that_are_not_floats", "stacks_whose_earlier_records_were_read_again_after_later_writes", "templates_unknown_field", "templates_known_fields"):
         if not total.counters.get(name) and not total.violations:
             total.inconc("monitor never observed: " + name)
